@@ -27,6 +27,34 @@ struct Case {
     /// existing type, and the project is regenerated over the previous output
     #[serde(default)]
     add_edge: Option<(String, String, Ty)>,
+    /// all runs but the first go through the library instead of an entry point, the way a
+    /// long-lived caller (a watcher) would use it: one CommandAnalyzer analyses the project
+    /// twice and the bindings are generated from the second analysis
+    #[serde(default)]
+    library_twice: bool,
+}
+
+/// The public API used by a caller that keeps its analyzer: mirror of generate_from_config,
+/// with the project analysed twice by the same CommandAnalyzer.
+fn library_twice(project: &str, out: &str, mappings: &BTreeMap<String, String>) -> Result<(), String> {
+    use tauri_typegen::analysis::CommandAnalyzer;
+    use tauri_typegen::generators::create_generator;
+    let mut config = tauri_typegen::GenerateConfig { project_path: project.to_string(), output_path: out.to_string(), validation_library: "zod".to_string(), ..Default::default() };
+    if !mappings.is_empty() {
+        config.type_mappings = Some(mappings.iter().map(|(k, v)| (k.clone(), v.clone())).collect());
+    }
+    config.validate().map_err(|e| format!("config: {}", e))?;
+    let mut analyzer = CommandAnalyzer::new();
+    if let Some(m) = &config.type_mappings {
+        analyzer.add_type_mappings(m);
+    }
+    let _first = analyzer.analyze_project(project).map_err(|e| format!("first analysis: {}", e))?;
+    let commands = analyzer.analyze_project(project).map_err(|e| format!("second analysis: {}", e))?;
+    let mut generator = create_generator(Some("zod".to_string()));
+    generator
+        .generate_models(&commands, analyzer.get_discovered_structs(), out, &analyzer, &config)
+        .map_err(|e| format!("generate: {}", e))?;
+    Ok(())
 }
 
 fn prim(r: &mut Rng) -> Ty {
@@ -142,6 +170,16 @@ impl Check for C09 {
         let mut names: Vec<String> = (0..n).map(|_| nm.fresh(&mut r, "type")).collect();
         // names that extend one another (User / UserProfile) must occur in both roles
         r.shuffle(&mut names);
+        // identifiers need not be ASCII: a tenth of the projects name one or two types in a script
+        // without letter case (legal since Rust 1.53), alone or in front of an ASCII tail
+        if i % 10 == 7 {
+            let mut ur = r.split("scripts");
+            for _ in 0..ur.range(1, 2) {
+                let k = ur.below(n as u64) as usize;
+                let word = *ur.pick(&["顧客", "注文", "データ", "שלום", "مرحبا", "ご注文", "用户", "값"]);
+                names[k] = if ur.chance(1, 2) { format!("{}{}", word, k) } else { format!("{}{}", word, names[k]) };
+            }
+        }
         let dag = gen_dag(&mut r, n, shape);
         let wild = r.chance(1, 5);
         // types
@@ -268,7 +306,8 @@ impl Check for C09 {
         let s_runs = if tier == Tier::Thorough { 6 } else { 3 };
         let mut pr = r.split("procs");
         let procs = (0..s_runs).map(|_| gen_proc(&mut pr)).collect();
-        serde_json::to_value(Case { model: Model { files }, cfg, setup, procs, edges, shape: shape.into(), add_edge }).unwrap()
+        let library_twice = i % 8 == 3;
+        serde_json::to_value(Case { model: Model { files }, cfg, setup, procs, edges, shape: shape.into(), add_edge, library_twice }).unwrap()
     }
 
     fn exec(&self, env: &mut Env, case: &Value) -> CaseOut {
@@ -321,7 +360,15 @@ impl Check for C09 {
             if k == 0 {
                 w.write_config(&c.setup, &cfg);
             }
-            let r = scen::run_tool(env, &w, &c.setup, &cfg, p.clone(), flag, false);
+            let r = if c.library_twice && k >= 1 && !*is_phase2 {
+                let project = w.src_tauri().to_string_lossy().into_owned();
+                let outp = out.to_string_lossy().into_owned();
+                let mappings = cfg.mappings.clone();
+                co.count("runs_through_the_library_with_a_reused_analyzer", 1);
+                env.run(&w, &w.cwd(&c.setup), p.clone(), crate::process::Call::Func(Box::new(move || library_twice(&project, &outp, &mappings))))
+            } else {
+                scen::run_tool(env, &w, &c.setup, &cfg, p.clone(), flag, false)
+            };
             co.count("processes", 1);
             if !r.res.status.is_ok() {
                 if k == 0 {
